@@ -19,6 +19,7 @@ extern "C" void h_hostile() {
     static const uint32_t types[] = {1, 86, 65, 200, 0, 10};
     uint32_t ot = types[vp_choose(6, "objectType")]; memcpy(o + 12, &ot, 4);
     vp_fs_put("a.blf", img, n);
+    {
     File g;
     g.open(VP_FILE("a.blf"), std::ios_base::in);
     int cnt = 0;
@@ -26,5 +27,7 @@ extern "C" void h_hostile() {
     vp_note("count", cnt);
     VP_ASSERT(cnt <= 50);
     g.close();
+    }
+    vp_check_leaks();
     vp_reach("end");
 }
